@@ -1155,6 +1155,21 @@ def gen_C05(c, rng, tier):
                 s = [e for e in s if e[0] != 'ops'] + [['ops', [['run', info['calls']], ['dump'], ['text'], ['reload'], ['dump'], ['text']]]]
                 c.add(t, 'run', s, classes=cl, nontrivial=len(info['calls']) > 0, info=info)
     for t in TYPES: gen_sizes(c, rng, tier, t, ['bins', 'dims', 'iterations', 'dists', 'dist_bins', 'channels'], ops_fn=lambda cs: [['run', cs], ['dump'], ['text'], ['reload'], ['dump'], ['text']])
+    gen_long_lived_object(c, rng, tier)
+
+def gen_long_lived_object(c, rng, tier):
+    for t in TYPES:
+        fmt = FMTS[t]
+        for kind in KINDS:
+            for _ in range(scale(tier, 3, 20)):
+                # one long-lived checkpoint object: written to text, rolled back, continued DIFFERENTLY (other calls), written again -
+                # the second text must describe what the object holds now (nothing remembered from the first serialisation)
+                n = rng.choice([2, 3, 4])
+                s0, cl, info = rand_run(rng, fmt, kind, iters=n, calls=[3, 5, 8], finite_only=True, poly=True, dists=([] if rng.random() < 0.5 else None), grid_map=True)
+                calls = info['calls']; k = rng.randint(0, n - 1)
+                other = [rng.choice([4, 6, 9, 12]) for _ in range(n - k + rng.choice([0, 1]))]
+                ops = [['run', calls], ['text'], ['rollback', k], ['run', other], ['text'], ['dump'], ['reload'], ['text']]
+                c.add(t, 'run', [e for e in s0 if e[0] != 'ops'] + [['ops', ops]], classes=cl + ['text_rollback_other_continuation_text'], nontrivial=True, info=info)
 
 @prop('C15', 'histories built from run(m), serialise+reload, rollback(k) for all k in 0..n+1, resume(m\'), for PLAIN, VEGAS (default and user grid) and '
       'multi-channel (default and user weights with disabled channels); serialised text and generator compared with the model and with the truncated real run; '
@@ -1201,6 +1216,7 @@ def gen_C15(c, rng, tier):
                         ops = [['run', calls[:a]], ['reload'], ['run', calls[a:]], ['rollback', k], ['text'], ['dump'], ['run', calls[k:]], ['text']]
                         s = [e for e in s0 if e[0] != 'ops'] + [['ops', ops]]
                         c.add(t, 'run', s, classes=cl + ['reload_resume_rollback', 'rollback_%s' % ('0' if k == 0 else 'mid')], rollback_group=group, k=k, n=n, nontrivial=True, info=info)
+    gen_long_lived_object(c, rng, tier)
     gen_C15_user_state(c, rng, tier)
     for t in TYPES: gen_sizes(c, rng, tier, t, ['iterations'], ops_fn=lambda cs: [['run', cs], ['reload'], ['rollback', len(cs) // 2 + 1], ['text'], ['run', cs[len(cs) // 2 + 1:]], ['text'], ['rollback', 0], ['text']])
 
